@@ -1340,6 +1340,25 @@ def orc_overwrite(case):
                 return 'test set-up: the old object has no name of its own'
             with open(p, 'rb') as f:
                 bytes_a = f.read()
+            if fmt == 'hdf5' and case.get('path_as') == 'pathlib':
+                # (1p) the same refusal when the existing path is given as a pathlib.Path: ANY exception, and the file untouched
+                import pathlib
+                try:
+                    B.save(pathlib.Path(p), file_type=fmt)
+                    refused = None
+                except Exception as e:                                   # noqa: BLE001
+                    refused = type(e).__name__
+                if refused is None:
+                    return f'{kind}.save(pathlib.Path of an existing hdf5 file) without overwrite: no exception'
+                try:        # (bytes may differ -- h5py touches the file before the first name collision --, the OBJECT must not)
+                    r = _cmp_any(kind, A, load(p), f'{kind} after the refused save to a pathlib.Path ({refused}): old object') \
+                        if old_is_obj else None
+                except Exception as e:                                   # noqa: BLE001
+                    r = f'{kind}: after the refused save to a pathlib.Path ({refused}) the file cannot be loaded: {type(e).__name__}: {e}'
+                if r:
+                    return r
+                with open(p, 'rb') as f:
+                    bytes_a = f.read()
             if fmt == 'hdf5':
                 # (1) refusal on an existing path, file untouched
                 try:
@@ -1947,6 +1966,9 @@ def tier_c(run, thorough):
                             else ('empty-file', 'other-format') if kind == 'temporal' else ('smaller',)):
                     bd.check(orc_overwrite, dict(kind=kind, fmt=fmt, target=target, old=old), 'existing-file-' + old,
                              function='remove_file' if target == 'file' else 'write_dict_hdf5')
+                if target == 'path' and fmt == 'hdf5':
+                    bd.check(orc_overwrite, dict(kind=kind, fmt=fmt, target=target, path_as='pathlib'), 'existing-path-as-pathlib',
+                             function='write_dict_hdf5')
                 if target == 'file':
                     # the handle is positioned at the END of the existing file (as after reading it through this handle)
                     for old in (('larger', 'smaller') if thorough or kind == 'rdms' else ('larger',)):
